@@ -12,7 +12,8 @@ RULE = ('E2 histories (Master + ZkBackend + masterapi on the fake ZooKeeper) '
         'their identity/expires are compared with the model leaves, both '
         'directions. Non-trivial = a history with >=3 published cycles in '
         'which entries were created, moved/deleted, and >=1 comparison saw '
-        '>=2 entries. distinct = canonical JSON.')
+        '>=2 entries. distinct = canonical JSON.'
+        ' Since round 6: buckets leaving/re-entering the cell and re-parenting are part of the histories.')
 ASSUMPTIONS = [
     'fake ZooKeeper (pbt/fakezk.py) stands in for the ensemble',
     'presence nodes are named by plain host name (loader/master convention '
